@@ -12,7 +12,7 @@ from ..core import Part, Violation, guard
 
 RULE = ("(1) Harness-owned schedules: the real keypress() runs in a real thread; its input() blocks on a harness queue, so the "
         "harness decides at which loop position (before/after the i-th pop, after the j-th written guess, inside a Markov level, "
-        "inside a Markov remainder restored from a save file) a status request '', help 'h', quit 'q', EOFError, RuntimeError "
+        "inside a Markov remainder restored from a save file) a status request '', help 'h', quit 'q' (each also in an interleaved form in which the keyboard thread, traced with sys.settrace, executes only 1-12 lines of repository code per loop position, so that the generation loop runs between any two lines of the status code), EOFError, RuntimeError "
         "(lost sys.stdin), OSError, ValueError or a failing status print arrives, and waits until the thread is blocked again or "
         "has ended. Hypothesis generates histories of 1-3 runs (fresh, --load, --load) with 0-5 events each. Oracle: "
         "pv/histories.py (nothing but an explicit 'q' shortens/reorders/alters the stream; 'q' stops at a boundary with state "
@@ -35,7 +35,10 @@ def _root():
 
 
 EVENTS = ['', 'h', 'q', {'raise': 'EOFError'}, {'raise': 'RuntimeError'}, {'raise': 'OSError'}, {'raise': 'ValueError'},
-          {'status_error': 1}]
+          {'status_error': 1},
+          # the same requests, but the keyboard thread works on them N lines at a time in step with the generation loop
+          {'interleaved': '', 'lines': 1}, {'interleaved': '', 'lines': 2}, {'interleaved': '', 'lines': 5}, {'interleaved': 'h', 'lines': 3},
+          {'interleaved': 'q', 'lines': 1}, {'interleaved': 'q', 'lines': 4}, {'interleaved': '', 'lines': 12}]
 
 
 @st.composite
@@ -102,7 +105,9 @@ def prop(case, rec):
         cls.append('status_or_help')
     if sm['quits']:
         cls.append('explicit_quit')
-    nontriv = bool(sm['thread_ended_by_stdin'] or sm['quits_inside_markov'] or sm['events_in_remainder'])
+    if sm.get('interleaved_events'):
+        cls.append('interleaved_request')
+    nontriv = bool(sm['thread_ended_by_stdin'] or sm['quits_inside_markov'] or sm['events_in_remainder'] or sm.get('interleaved_events'))
     rec.case({'schedules': case['schedules'], 'runs': sm['runs'], 'U': len(u.lines)}, nontriv, cls, key=case)
 
 
